@@ -75,12 +75,31 @@ def joinHostPort (host port : Str) : Str :=
 
 /-! ### internal/upstream/utils.go -/
 
+/-- `len(s) < 2` (tied to the source by translation, `Lemmas/TranslatedC17.lean`) -/
+@[simp] def trimTooShort (len : Nat) : Bool := decide (len < 2)
+
+/-- `s[0] == '[' && s[len(s)-1] == ']'` (tied to the source by translation for every `s` the guard lets through) -/
+@[simp] def bracketed (s : Str) : Bool := decide (s.head? = some '[' ∧ s.getLast? = some ']')
+
+/-- `len(dialAddr) > 0` -/
+@[simp] def lenPositive (len : Nat) : Bool := decide (len > 0)
+
+/-- `len(port) == 0` -/
+@[simp] def lenZero (len : Nat) : Bool := decide (len = 0)
+
 /-- `tryTrimIpv6Brackets`; `none` = panic (slice bounds). The slice bounds `1`
     and `len(s)-1` are pinned (`Facts.addr_trimSlice`). -/
 def tryTrimIpv6Brackets? (s : Str) : Option Str :=
-  if s.length < 2 then some s
-  else if s.head? = some '[' ∧ s.getLast? = some ']' then slice? s 1 (s.length - 1)
+  if trimTooShort s.length then some s
+  else if bracketed s then slice? s 1 (s.length - 1)
   else some s
+
+/-- the tests spelled out (the form the lemmas work with) -/
+theorem tryTrimIpv6Brackets?_eq (s : Str) : tryTrimIpv6Brackets? s =
+    if s.length < 2 then some s
+    else if s.head? = some '[' ∧ s.getLast? = some ']' then slice? s 1 (s.length - 1)
+    else some s := by
+  simp only [tryTrimIpv6Brackets?, trimTooShort, bracketed, decide_eq_true_eq]
 
 /-- the value `tryTrimIpv6Brackets` returns; it never panics (`trim_never_panics`), the `none`
     branch is dead -/
@@ -106,15 +125,27 @@ def hasAtPrefix (s : Str) : Bool := s.head? = some '@'
 
 /-- `getDialAddr` -/
 def getDialAddr (urlAddr dialAddr defaultPort : Str) : Str :=
-  if dialAddr.length > 0 then
+  if lenPositive dialAddr.length then
     if hasAtPrefix dialAddr then dialAddr
     else
       let (host, port) := trySplitHostPort dialAddr
       -- "host may be an ipv6 address in brackets. JoinHostPort adds them."
-      if port.length = 0 then joinHostPort (tryTrimIpv6Brackets host) defaultPort else dialAddr
+      if lenZero port.length then joinHostPort (tryTrimIpv6Brackets host) defaultPort else dialAddr
   else
     let (host, port) := trySplitHostPort urlAddr
-    if port.length = 0 then joinHostPort host defaultPort else urlAddr
+    if lenZero port.length then joinHostPort host defaultPort else urlAddr
+
+/-- the tests spelled out (the form the lemmas work with) -/
+theorem getDialAddr_eq (urlAddr dialAddr defaultPort : Str) : getDialAddr urlAddr dialAddr defaultPort =
+    if dialAddr.length > 0 then
+      if hasAtPrefix dialAddr then dialAddr
+      else
+        let (host, port) := trySplitHostPort dialAddr
+        if port.length = 0 then joinHostPort (tryTrimIpv6Brackets host) defaultPort else dialAddr
+    else
+      let (host, port) := trySplitHostPort urlAddr
+      if port.length = 0 then joinHostPort host defaultPort else urlAddr := by
+  simp only [getDialAddr, lenPositive, lenZero, decide_eq_true_eq]
 
 def sUnix : Str := ['u', 'n', 'i', 'x']
 def sTcp : Str := ['t', 'c', 'p']
